@@ -10,7 +10,8 @@ From RU Require Import Base.Prelude Base.Utf8 Base.Utf8Facts Model.AsciiSet Gen.
   Model.PercentEncoding Model.HostT Model.UrlRecord Model.Parser Model.Setters Model.WF
   Proofs.ListN Proofs.C14_Enc Proofs.C02_Enc Proofs.C02_Parts Proofs.C02_Opaque Proofs.C02_Path Proofs.C02_PathL1
   Proofs.C02_Reach Proofs.C02_AuthParts Proofs.C02_Auth Proofs.C02_AuthWf Proofs.C02_PathSp Proofs.C02_AuthSp
-  Proofs.C02_AuthMain Proofs.C02_Hist Proofs.C02_HistInst.
+  Proofs.C02_AuthMain Proofs.C02_Hist Proofs.C02_HistInst Proofs.C02_SetQF Proofs.C02_Canon Proofs.C02_SetPort
+  Proofs.C02_ReachPartial.
 From RU Require Import Model.Host Proofs.C09_Host Proofs.C16_RT6Model.
 Open Scope string_scope.
 Open Scope N_scope.
@@ -502,6 +503,113 @@ Example C02_nonfile_inhabited :
   nonfile_input (B "about:blank") = true /\ nonfile_input (B "a:/x/../y") = true /\ nonfile_input (B "a://u@h:1/") = true
   /\ nonfile_input (B "HTTPS:\h") = true /\ nonfile_input (B "file:///x") = false /\ nonfile_input (B "/relative") = false.
 Proof. exact nonfile_examples. Qed.
+
+(* ---------- J. L2 for set_fragment, set_query, set_port; histories of parse + these setters ---------- *)
+(* Canon = the union of the four canonical forms of sections C, D, G, H (opaque path; no authority; authority and
+   non-special scheme; special non-file scheme).  Every Canon record is a fixpoint of re-parsing, every parse
+   result without base of a non-file scheme is Canon (special schemes: without encoding override) *)
+Theorem C02_Canon_fixpoint : forall dbg hp hpo hd, HostRT hp hpo hd -> forall u, Canon hp hpo hd u ->
+  Fixpoint_of_reparse dbg hp hpo hd u /\ wf_b u = true /\ ascii (ser u).
+Proof. exact Canon_fixpoint. Qed.
+Check C02_Canon_fixpoint : forall dbg hp hpo hd, HostRT hp hpo hd -> forall u, Canon hp hpo hd u ->
+  parse_url dbg hp hpo hd None None (utf8_lossy (ser u)) = POk u /\ wf_b u = true /\ ascii (ser u).
+Print Assumptions C02_Canon_fixpoint.
+
+Theorem C02_parse_Canon : forall dbg hp hpo hd, HostRT hp hpo hd -> forall ovr input u,
+  host_above hp hpo hd -> usv_list input -> nonfile_input input = true ->
+  (ovr = None \/ special_input input = false) ->
+  parse_url dbg hp hpo hd ovr None input = POk u -> Canon hp hpo hd u.
+Proof. exact parse_Canon. Qed.
+Print Assumptions C02_parse_Canon.
+
+(* the three setters keep Canon, for arbitrary arguments.  Premise nlen (ser u') <= U32_MAX_P: the new
+   serialization fits the u32 offsets; beyond it Url::set_* panics in to_u32(..).unwrap() (no Url value results),
+   which the model of the setters does not show, and the re-parse fails with Overflow *)
+Theorem C02_set_fragment_Canon : forall dbg hp hpo hd, HostRT hp hpo hd -> forall u fr u',
+  Canon hp hpo hd u -> usv_opt fr -> set_fragment dbg u fr = Some u' -> nlen (ser u') <= U32_MAX_P ->
+  Canon hp hpo hd u'.
+Proof. exact set_fragment_Canon. Qed.
+Check C02_set_fragment_Canon : forall dbg hp hpo hd, HostRT hp hpo hd -> forall u fr u',
+  Canon hp hpo hd u -> (match fr with Some s => usv_list s | None => True end) ->
+  set_fragment dbg u fr = Some u' -> nlen (ser u') <= 4294967295 -> Canon hp hpo hd u'.
+Print Assumptions C02_set_fragment_Canon.
+
+Theorem C02_set_query_Canon : forall dbg hp hpo hd, HostRT hp hpo hd -> forall u qr u',
+  Canon hp hpo hd u -> usv_opt qr -> set_query dbg u qr = Some u' -> nlen (ser u') <= U32_MAX_P ->
+  Canon hp hpo hd u'.
+Proof. exact set_query_Canon. Qed.
+Check C02_set_query_Canon : forall dbg hp hpo hd, HostRT hp hpo hd -> forall u qr u',
+  Canon hp hpo hd u -> (match qr with Some s => usv_list s | None => True end) ->
+  set_query dbg u qr = Some u' -> nlen (ser u') <= 4294967295 -> Canon hp hpo hd u'.
+Print Assumptions C02_set_query_Canon.
+
+Theorem C02_set_port_Canon : forall dbg hp hpo hd u n u' s, Canon hp hpo hd u ->
+  (match n with Some x => x <= 65535 | None => True end) ->
+  set_port dbg u n = Some (u', s) -> nlen (ser u') <= U32_MAX_P -> Canon hp hpo hd u'.
+Proof. exact set_port_Canon. Qed.
+Check C02_set_port_Canon : forall dbg hp hpo hd u n u' s, Canon hp hpo hd u ->
+  (match n with Some x => x <= 65535 | None => True end) ->
+  set_port dbg u n = Some (u', s) -> nlen (ser u') <= 4294967295 -> Canon hp hpo hd u'.
+Print Assumptions C02_set_port_Canon.
+
+(* the setters computed on the common shape pre ++ ["?" q] ++ ["#" f] of every canonical record *)
+Theorem C02_set_fragment_shape : forall dbg pre se ue hs he hi pt ps q f input, usv_list input ->
+  set_fragment dbg (qf_url pre se ue hs he hi pt ps q f) (Some input)
+  = Some (qf_url pre se ue hs he hi pt ps q (Some (frag_of input))).
+Proof. exact set_fragment_qf_some. Qed.
+Print Assumptions C02_set_fragment_shape.
+
+Theorem C02_set_query_shape : forall dbg pre se ue hs he hi pt ps sch, nfirstn se pre = sch -> se <= nlen pre ->
+  forall q f input, usv_list input ->
+  set_query dbg (qf_url pre se ue hs he hi pt ps q f) (Some input)
+  = Some (qf_url pre se ue hs he hi pt ps (Some (squery_of (scheme_type_of sch) input)) f).
+Proof. exact set_query_qf_some. Qed.
+Print Assumptions C02_set_query_shape.
+
+Theorem C02_set_port_shape : forall dbg F R se ue hs hi pt p' q f,
+  set_port_internal dbg (hp_url F pt R se ue hs hi q f) p' = Some (hp_url F p' R se ue hs hi q f).
+Proof. exact set_port_internal_frame. Qed.
+Print Assumptions C02_set_port_shape.
+
+(* C02_statement restricted to the histories  Url::parse (no base, non-file scheme; special schemes without
+   encoding override)  followed by any number of set_fragment / set_query / set_port calls with arbitrary
+   arguments (ReachC): every record of such a history is a fixpoint of re-parsing, satisfies wf_b and is ASCII.
+   ReachC is inside Reachable2, the quantifier of C02_statement.
+   Still missing for C02_statement: the file scheme, joins, an encoding override on special schemes, the other
+   sixteen mutators (set_username / set_password / set_host / set_ip_host / set_path / set_scheme,
+   path_segments_mut, the quirks setters). *)
+Theorem C02_reach_partial : forall dbg hp hpo hd, HostOK2 hp hpo hd -> forall u, ReachC dbg hp hpo hd u ->
+  Fixpoint_of_reparse dbg hp hpo hd u /\ wf_b u = true /\ ascii (ser u).
+Proof. exact reach_partial. Qed.
+Check C02_reach_partial : forall dbg hp hpo hd, HostOK2 hp hpo hd -> forall u, ReachC dbg hp hpo hd u ->
+  parse_url dbg hp hpo hd None None (utf8_lossy (ser u)) = POk u /\ wf_b u = true /\ ascii (ser u).
+Print Assumptions C02_reach_partial.
+
+Theorem C02_reach_partial_in_statement : forall dbg hp hpo hd, HostOK2 hp hpo hd -> forall u,
+  ReachC dbg hp hpo hd u -> Reachable2 dbg hp hpo hd u.
+Proof. exact ReachC_Reachable2. Qed.
+Print Assumptions C02_reach_partial_in_statement.
+
+(* the same for the parser model linked with the host model: the only premise about hosts is IdnaOK *)
+Theorem C02_reach_partial_model : forall dbg idna, IdnaOK idna -> forall u,
+  ReachC dbg (host_parse idna) host_parse_opaque host_display u ->
+  Fixpoint_of_reparse dbg (host_parse idna) host_parse_opaque host_display u /\ wf_b u = true /\ ascii (ser u).
+Proof. exact (fun dbg idna OK => reach_partial dbg _ _ _ (HostOK2_model idna OK)). Qed.
+Print Assumptions C02_reach_partial_model.
+
+(* non-vacuity: http://EXAMPLE.com:80/a/../b?x#y -> set_port(8080) -> set_query("k=v w#") -> set_fragment(None)
+   -> set_port(80) -> set_fragment("f g") = http://EXAMPLE.com/b?k=v%20w%23#f%20g, a fixpoint; and
+   "a:b c  ?q" -> set_query(None) = "a:b c" (trailing spaces of the opaque path stripped) *)
+Example C02_reach_partial_inhabited :
+  match ex_hist "http://EXAMPLE.com:80/a/../b?x#y"
+          [OSetPort (Some 8080); OSetQuery (Some (B "k=v w#")); OSetFragment None; OSetPort (Some 80); OSetFragment (Some (B "f g"))] with
+  | Some u => list_eqb (ser u) (B "http://EXAMPLE.com/b?k=v%20w%23#f%20g")
+              && match parse_url true ex_hp ex_hp ex_hd None None (ser u) with POk v => url_eqb v u | _ => false end
+  | None => false
+  end = true
+  /\ match ex_hist "a:b c  ?q" [OSetQuery None] with
+     | Some u => list_eqb (ser u) (B "a:b c") | None => false end = true.
+Proof. exact reach_partial_example. Qed.
 
 (* ---------- F. every excluded class contains a history that is not a fixpoint ---------- *)
 Theorem C02_F_C03_5_refuted :
